@@ -317,11 +317,63 @@ def run(ctx) -> None:
            and isinstance(s.targets[0].slice, ast.Slice) and isinstance(s.value, ast.Subscript)
            and isinstance(s.value.slice, ast.Slice)]
     if len(asg) != 2:
-        raise AnalysisError(f"{rd.short}: expected two slice assignments out[S] = data[T], found {len(asg)}")
-    r1.instance(f"{rd.short}: {norm1(asg[0])}; {norm1(asg[1])}")
+        # gather form: return data[IDX] with IDX an integer expression of np.arange(n) (e.g. j // 2 + nup * (j % 2))
+        rets_g = [s for s in stmts(rd.node) if isinstance(s, ast.Return) and s.value is not None]
+        okg = False
+        if len(rets_g) == 1:
+            rv0 = rets_g[0].value
+            RS.keep_names = {rv0.value.id} if isinstance(rv0, ast.Subscript) and isinstance(rv0.value, ast.Name) else set()
+            rv = RS.resolve(rv0, rcfg.node(rets_g[0]))
+            RS.keep_names = set()
+            if isinstance(rv, ast.Subscript) and not isinstance(rv.slice, (ast.Slice, ast.Tuple)):
+                src_n = norm(rv.value)
+
+                def vec(e, n):
+                    """value of an integer expression built from np.arange(n): an int or a list of ints"""
+                    if isinstance(e, ast.Constant) and isinstance(e.value, int):
+                        return e.value
+                    t_ = norm(e).replace(" ", "")
+                    if t_ in (f"{src_n}.shape[0]", f"len({src_n})"):
+                        return n
+                    if isinstance(e, ast.Call) and call_name(e) in ("np.arange", "range") and len(e.args) == 1:
+                        return list(range(vec(e.args[0], n)))
+                    if isinstance(e, ast.BinOp):
+                        a, b = vec(e.left, n), vec(e.right, n)
+                        f_ = {ast.Add: lambda x, y: x + y, ast.Sub: lambda x, y: x - y, ast.Mult: lambda x, y: x * y,
+                              ast.FloorDiv: lambda x, y: x // y, ast.Mod: lambda x, y: x % y}.get(type(e.op))
+                        if f_ is None:
+                            raise AnalysisError(f"operator outside the integer subset: {norm1(e)}")
+                        if isinstance(a, list) and isinstance(b, list):
+                            return [f_(x, y) for x, y in zip(a, b)]
+                        if isinstance(a, list):
+                            return [f_(x, b) for x in a]
+                        if isinstance(b, list):
+                            return [f_(a, y) for y in b]
+                        return f_(a, b)
+                    raise AnalysisError(f"index expression outside the integer subset: {norm1(e)}")
+                r1.instance(f"{rd.short}: gather {norm1(rv, 70)}")
+                bad_g = None
+                for n in range(0, 10):
+                    file_rows = _slice_indices(wslices[0], n, ()) + _slice_indices(wslices[1], n, ())
+                    try:
+                        ix = vec(rv.slice, n)
+                    except ZeroDivisionError:
+                        ix = None
+                    if not isinstance(ix, list) or len(ix) != n or any(k < 0 or k >= n for k in ix) or [file_rows[k] for k in ix] != list(range(n)):
+                        bad_g = (n, ix)
+                        break
+                okg = True
+                r1.check(bad_g is None, "reader's gather inverts the writer's de-interleave for n = 0..9 (both parities)", rd, rets_g[0],
+                         f"for n={bad_g[0] if bad_g else ''} Wannier functions the reader gathers file lines {bad_g[1] if bad_g else ''}: the centres come back permuted "
+                         f"(or the index is out of range)")
+        if not okg:
+            raise AnalysisError(f"{rd.short}: expected two slice assignments out[S] = data[T] (or one gather data[index(arange(n))]), found {len(asg)}")
+        asg = []
+    if asg:
+        r1.instance(f"{rd.short}: {norm1(asg[0])}; {norm1(asg[1])}")
     src_names = {norm(s.value.value) for s in asg}
     bad = None
-    for n in range(0, 10):
+    for n in (range(0, 10) if asg else ()):
         file_rows = _slice_indices(wslices[0], n, ()) + _slice_indices(wslices[1], n, ())  # file line k holds centre file_rows[k]
         recon: Dict[int, int] = {}
         for s in asg:
@@ -340,7 +392,7 @@ def run(ctx) -> None:
     if bad:
         r1.violation(rd, bad[1], f"for n={bad[0]} Wannier functions {bad[2]}: the centre file written by write_hr_file cannot "
                      f"be read back (ValueError) or comes back permuted")
-    else:
+    elif asg:
         r1.ok("reader's split/interleave inverts the writer's de-interleave for n = 0..9 (both parities)")
 
     # ---------------------------------------------------------------- R18.2 / R18.3
@@ -464,6 +516,29 @@ def run(ctx) -> None:
                 if kw_.arg is None:
                     vals += ["**" + norm(x) for x in TS.alternatives(kw_.value, at_)]
         txt_loop = norm(lp)
+        # values handed over through a private helper:  arrays, named = self._content(key);  np.savez(path, *arrays, **named)
+        for c in sv:
+            at_ = TS.du.node_of_expr(c)
+            star = [(a.value, "") for a in c.args[1:] if isinstance(a, ast.Starred)] + [(k_.value, "**") for k_ in c.keywords if k_.arg is None]
+            for sx, pre in star:
+                if not isinstance(sx, ast.Name):
+                    continue
+                for d_ in TS.du.reaching(sx.id, at_):
+                    if d_.kind in ("unpack", "assign") and isinstance(d_.value, ast.Call):
+                        nm_ = d_.value.func.attr if isinstance(d_.value.func, ast.Attribute) else getattr(d_.value.func, "id", None)
+                        h_ = idx.find_method(to_npz.cls, nm_) if nm_ and to_npz.cls is not None else None
+                        if h_ is None:
+                            continue
+                        HS_ = Sem(idx, h_)
+                        HS_.inline_helpers = False
+                        txt_loop += " " + norm(h_.node)
+                        for rv_, _cs, st_ in return_cases(HS_):
+                            rr = HS_.resolve(rv_, HS_.cfg.node(st_))
+                            part = rr.elts[d_.index] if d_.kind == "unpack" and isinstance(rr, ast.Tuple) and d_.index is not None and d_.index < len(rr.elts) else rr
+                            if pre == "" and isinstance(part, (ast.Tuple, ast.List)):
+                                vals += [norm(x) for x in part.elts]
+                            else:
+                                vals.append(pre + norm(part))
         if "iRvec" in essential:
             r4.check(any("self.rvec.iRvec" in v for v in vals) and "'iRvec'" in txt_loop, "to_npz special case iRvec", to_npz, lp,
                      "to_npz lost the special case for `iRvec` (the R-vector list lives in self.rvec)", stmt="to_npz iRvec")
@@ -513,7 +588,9 @@ def run(ctx) -> None:
             and any(("'iRvec'" in t_ or '"iRvec"' in t_) and p_ for t_, p_ in cds) and isinstance(st_rv, ast.Assign) and norm(st_rv.targets[0]) == "self.rvec"
     r4.check(okrv, "iRvec → Rvectors with the loaded lattice and centre shifts", load, rvs[0] if rvs else lp,
              "load_npz no longer rebuilds Rvectors from iRvec with the lattice and the centre shifts", stmt="iRvec → Rvectors")
-    pgc = [c for c in calls(lp, "PointGroup") if kwarg(c, "dictionary", 3) is not None]
+    from ..sem import reachable_helpers as _rh18
+    pgc = [c for root_ in [lp] + [h_.node for h_ in _rh18(idx, idx.function(SR, "System_R.load_npz"))] for c in calls(root_, "PointGroup")
+           if kwarg(c, "dictionary", 3) is not None]
     sat = [c for c in ast.walk(lp) if isinstance(c, ast.Call) and call_name(c) == "setattr" and len(c.args) == 3 and norm(c.args[0]) == "self"]
     r4.check(bool(pgc) and bool(sat), "pointgroup/symgroup and plain arrays restored",
              load, lp, "load_npz no longer restores the point group / generic properties", stmt="setattr")
@@ -750,7 +827,12 @@ def check_pointgroup_serialisation(ctx) -> None:
     if okw and okr and wi is not None:
         ri0 = [n.id for n in ast.walk(ast.parse(pr, mode="eval")) if isinstance(n, ast.Name) and n.id != "self"][0]
         same_prefix = re.sub(rf"\b{wi}\b", "I", norm(pw)) == re.sub(rf"\b{ri0}\b", "I", pr)
-    r5.check(okw and okr and same_prefix, "per-operation keys use one prefix on both sides; entry i ↔ operation i", wd, per_op[0].node if per_op else wd.node,
+    if not (okw and okr):
+        r5.expect(False, "", wd if not okw else ini, per_op[0].node if per_op and not okw else ini.node,
+                  f"point-group (de)serialisation: the {'writer' if not okw else 'reader'} of the per-operation keys is not in a form the checker understands "
+                  f"(writer: key = prefix(i) + k for (k, v) in symmetries[i].as_dict(); reader: k[len(prefix(i)):] for k.startswith(prefix(i)), i in range(nsym))")
+    else:
+      r5.check(same_prefix, "per-operation keys use one prefix on both sides; entry i ↔ operation i", wd, per_op[0].node if per_op else wd.node,
              f"per-operation key prefix / indexing differs between writer and reader (writer `{norm1(pw) if pw is not None else None}` ok={okw}; "
              f"reader `{pr}` ok={okr})", stmt="symm prefix")
     sw = ps.methods.get("as_dict")
